@@ -2,6 +2,8 @@
 (***************************************************************************)
 (* Trace specification for C20: the allocation-only build and the std      *)
 (* build run the same inputs; every event carries both projections.        *)
+(*   cstream : frames decoded one after the other from one reader (the     *)
+(*             build's own cursor type) in both builds                     *)
 (*   cdecode : decode + text of one buffer in both builds, plus the        *)
 (*             serialize/deserialize round trip of the frame (std+serde)   *)
 (*   cpair   : CPR pairing in both builds                                  *)
@@ -23,6 +25,7 @@ EvDiff(ev) ==
        \cup (IF "serde" \in DOMAIN ev.std => ev.std.serde = ev.std.out THEN {} ELSE {"serde_frame"})
        \* ... and as a whole value (Debug form), for what the projection does not tell apart
        \cup (IF "serde_eq" \in DOMAIN ev.std => ev.std.serde_eq = 1 THEN {} ELSE {"serde_frame_equality"})
+    [] ev.ev = "cstream" -> IF ev.std = ev.alloc THEN {} ELSE {"configs_stream"}
     [] ev.ev = "cpair" -> IF ev.std = ev.alloc THEN {} ELSE {"configs_pair"}
     [] ev.ev = "ctrack" -> (IF ev.std.planes = ev.alloc.planes THEN {} ELSE {"configs_tracker"})
                            \cup (IF ev.std.added = ev.alloc.added /\ ev.std.outcome = ev.alloc.outcome THEN {} ELSE {"configs_added"})
